@@ -31,8 +31,10 @@ allvars == <<vars, tvars>>
 
 SeqToSet(s) == {s[i] : i \in DOMAIN s}
 T == Traces[tid]
-TCfg(tr) == [nt |-> tr.cfg.nt, nc |-> tr.cfg.nc, dest |-> tr.cfg.dest, backed |-> SeqToSet(tr.cfg.backed),
-             par |-> tr.cfg.par, shard |-> tr.cfg.shard, pre |-> SeqToSet(tr.cfg.pre)]
+TCfg(tr) == LET b == SeqToSet(tr.cfg.backed) IN
+            [nt |-> tr.cfg.nt, nc |-> tr.cfg.nc, dest |-> tr.cfg.dest, backed |-> b,
+             par |-> tr.cfg.par, shard |-> tr.cfg.shard, pre |-> SeqToSet(tr.cfg.pre), lim |-> tr.cfg.lim,
+             sh |-> ShardAssign(tr.cfg.nt, tr.cfg.nc, b, tr.cfg.shard, tr.cfg.lim)]   \* the spec computes the shards
 Vis == SeqToSet(T.vis)
 
 EndObs(tr) == [files |-> tr.end.files, modes |-> tr.end.modes, link |-> tr.end.link, tdir |-> tr.end.tdir,
